@@ -23,11 +23,6 @@ def showDump (m : List (Bytes × List Bytes)) : String :=
 
 def nonEmpty (m : List (Bytes × List Bytes)) : List (Bytes × List Bytes) := m.filter (fun p => !p.2.isEmpty)
 
-/-- guard of finding D-LRANGE (`LRange`/`LTrim` panic): in-guard iff neither `start < 0 ∧ end = 0`
-nor a start below `-size`, and the list is not an emptied one asked with negative bounds. -/
-def lrangeGuard (n : Nat) (s e : Int) : Bool :=
-  !(decide (s < 0) && decide (e = 0)) && decide (-(n : Int) ≤ s)
-
 def specAccept (want : String) (errOk : Bool) (impl : String) : Bool :=
   if impl == "err" then errOk else impl == want
 
@@ -83,14 +78,14 @@ def step (st : St) (cmd : String) (impl : String) : St × Verdict :=
     let o := ListDS.lrange st.m k s e
     let r := Spec.RList.lrange old s e
     let want := "ok " ++ showList r
-    let tg := if lrangeGuard n s e then "in-guard" else "finding:D-LRANGE"
+    let tg := "in-guard"
     (st, { model := showOutcome showList o, specOk := some (specAccept want r.isEmpty impl), spec := want, tag := tg,
            cell := "lrange/" ++ cls ++ "/" ++ toString (decide (s < 0)) ++ "/" ++ toString (decide (e < 0)) ++ "/" ++ toString r.isEmpty })
   | "ltrim" =>
     let s := parseInt (f.getD 2 "0"); let e := parseInt (f.getD 3 "0")
     let (m', o) := ListDS.ltrim st.m k s e
     let r := Spec.RList.lrange old s e
-    let tg := if lrangeGuard n s e then "in-guard" else "finding:D-LRANGE"
+    let tg := "in-guard"
     let okk := specAccept "ok" (r.isEmpty || n == 0) impl
     let s' := if impl == "ok" then ListDS.put st.s k r else st.s
     ({ m := m', s := s' }, { model := showOutcome (fun _ => "") o, specOk := some okk, spec := "ok", tag := tg, cell := s!"ltrim/{cls}/{r.isEmpty}" })
@@ -99,7 +94,7 @@ def step (st : St) (cmd : String) (impl : String) : St × Verdict :=
     let (m', o) := ListDS.lrem st.m k c v
     let (r, cnt) := Spec.RList.lrem old c v
     let want := s!"ok {cnt}"
-    let tg := if c == minInt64 then "finding:D-LREM-MININT" else "in-guard"
+    let tg := "in-guard"
     let okk := specAccept want (c.natAbs > n || n == 0) impl
     let s' := if cls == "ok" then ListDS.put st.s k r else st.s
     ({ m := m', s := s' }, { model := showOutcome toString o, specOk := some okk, spec := want, tag := tg, cell := "lrem/" ++ cls ++ "/" ++ toString (decide (c < 0)) ++ "/" ++ toString (decide (c = 0)) ++ "/" ++ toString cnt })
